@@ -766,8 +766,89 @@ fn exception_with_backlog(r: &mut Rng, res: &mut CaseResult) {
     res.sample = Some(json!({"scenario": "client exception behind a stalled transport while publishers keep submitting", "hard_error": code, "stall_after_bytes": take}));
 }
 
+/// A delivery whose headers table nests field arrays `depth` levels deep: syntactically
+/// valid, a few bytes per level, well within frame_max, and something any publisher can
+/// send through a broker. It must arrive or be refused, not take the process down.
+fn nested_headers(depth: usize, res: &mut CaseResult) {
+    let (conn, h) = session::open_default(Reflex::default());
+    let mut conn = match conn {
+        Ok(c) => c,
+        Err(e) => {
+            res.inconclusive(format!("handshake: {}", ek(&e)));
+            return;
+        }
+    };
+    let ch = match conn.open_channel(None) {
+        Ok(c) => c,
+        Err(e) => {
+            res.inconclusive(format!("open_channel: {}", ek(&e)));
+            return;
+        }
+    };
+    let cons = match ch.basic_consume("q", ConsumerOptions::default()) {
+        Ok(c) => c,
+        Err(e) => {
+            res.inconclusive(format!("consume: {}", ek(&e)));
+            return;
+        }
+    };
+    let id = ch.channel_id();
+    // value = 'A' <u32 length> <values>, nested; the innermost array is empty
+    let mut value: Vec<u8> = vec![b'A', 0, 0, 0, 0];
+    for _ in 1..depth {
+        let mut outer = vec![b'A'];
+        outer.extend_from_slice(&(value.len() as u32).to_be_bytes());
+        outer.extend_from_slice(&value);
+        value = outer;
+    }
+    let mut table: Vec<u8> = vec![1, b'n'];
+    table.extend_from_slice(&value);
+    let mut hp: Vec<u8> = Vec::new();
+    hp.extend_from_slice(&60u16.to_be_bytes());
+    hp.extend_from_slice(&0u16.to_be_bytes());
+    hp.extend_from_slice(&0u64.to_be_bytes());
+    hp.extend_from_slice(&0x2000u16.to_be_bytes());
+    hp.extend_from_slice(&(table.len() as u32).to_be_bytes());
+    hp.extend_from_slice(&table);
+    let mut bytes = enc_method(id, AMQPClass::Basic(B::Deliver(basic::Deliver { consumer_tag: cons.consumer_tag().to_string(), delivery_tag: 1, redelivered: false, exchange: "x".into(), routing_key: "k".into() })));
+    bytes.extend(enc_raw(wire::T_HEADER, id, &hp));
+    res.obs("frames_injected", 2);
+    res.obs("nested_header_frame_bytes", hp.len() as u64 + 8);
+    h.inject(bytes);
+    // (if the process is still there after this, the frame was survived)
+    match cons.receiver().recv_timeout(W) {
+        Ok(ConsumerMessage::Delivery(d)) => {
+            res.obs("deliveries_observed", 1);
+            if d.properties.headers().as_ref().map(|t| t.len()) != Some(1) {
+                res.violate("misdelivered_content", format!("depth {}: the headers table arrived with {:?} entries", depth, d.properties.headers().as_ref().map(|t| t.len())));
+            }
+        }
+        // refusing the frame loudly (connection error) is acceptable
+        _ => res.obs("nested_headers_refused", 1),
+    }
+    std::mem::forget(cons);
+    drop(ch);
+    let t = run::spawn("close", move || conn.close());
+    let _ = t.join(W);
+    for p in run::io_panics(&run::take_panics()) {
+        res.violate("io_thread_panic", format!("depth {}: {} at {}", depth, p.msg, p.loc));
+    }
+    res.sig = crate::rng::fnv_str(&format!("nested{}", depth));
+    res.sample = Some(json!({"scenario": "headers table with deeply nested field arrays", "depth": depth, "frame_bytes": hp.len() + 8}));
+}
+
 pub fn run(rc: &mut RunCtx) {
     let seed = rc.seed;
+    for depth in [30usize, 400, 3000, 20000] {
+        let id = format!("nested-headers:{}", depth);
+        if !rc.mine(&id) {
+            continue;
+        }
+        rc.begin(&id);
+        let mut res = CaseResult::new(id);
+        nested_headers(depth, &mut res);
+        rc.end(res);
+    }
     for i in 0..rc.n(48, 1500) {
         let id = format!("exception-backlog:{}", i);
         if !rc.mine(&id) {
